@@ -4,7 +4,7 @@ from ..rules import drivers, dispatch
 META = {
     "title": "Backends reject what they cannot emulate instead of returning wrong results",
     "technique": "static analysis: CFG reachability of discriminator chains + path-sensitive abstract "
-                 "interpretation of the backend constructors (dispatch / must-inspect rules)",
+                 "interpretation of the backend constructors (dispatch / must-inspect rules); table of required rejections decided on raising paths with polarity; driver-class dispatch table",
     "design_ref": "DESIGN.md §5 C04, A.6",
     "explanation": "DISPATCH rules: (a) every if/elif chain on an enumerated discriminator (interaction type, "
                    "basis, Hamiltonian type, noise type, eigenstates) ends in raise on the none-matched path; "
